@@ -42,14 +42,15 @@ func init() {
 	add(Spec{
 		PropSpec: vlib.PropSpec{
 			ID: "C08", Level: "exploration",
-			Rule:        "fold phase: FoldChecksum vs a 64-bit end-around reference for ALL 2^32 accumulator values (thorough, 16 shards) or a stratified 2^22+917 504-value subset (quick: high or low half in {0,1,2,0x7fff,0x8000,0xfffe,0xffff} x all 65 536, plus PRNG values). sum phase: FoldChecksum(ComputeChecksum(d,init)) vs RFC 1071 reference for all lengths 0..64 x 5 byte patterns x 6 initial sums, PRNG strings <= 4 KiB, 65 535..65 537, and 128 KiB..300 KB strings of 0xff/large words (32-bit carry-out region). proto phase: for IPv4 header (IHL 5..15), TCP/v4, TCP/v6, UDP/v4, UDP/v6, ICMPv4, ICMPv6, GRE (+key/seq, + source route entries of odd and even length - an odd one makes the header odd-sized, so the payload starts inside a checksum word) packets built with SerializeLayers(FixLengths,ComputeChecksums): stored checksum == independent reference over the covered bytes + independently built pseudo-header; a 16-bit compensation word (payload word / IPv4 Id) steers each family through the checksum outcomes (all 65 536 words for one family per protocol and parity in quick, six families in thorough; the special outcomes 0x0000/0xffff/0x0001/0xfffe/0x8000/0x7fff/0x00ff/0xff00 are additionally solved for), odd and even payload lengths; every built packet is decoded and verified (layer VerifyChecksum + Packet.VerifyChecksums); every single-bit flip of every covered bit (incl. stored checksum and pseudo-header addresses) that leaves the covered byte range unchanged must be reported invalid with Correct == reference. Non-trivial = every packet (>= 1 covered word) and every >= 2-byte string; distinct by content hash.",
+			Rule:        "fold phase: FoldChecksum vs a 64-bit end-around reference for ALL 2^32 accumulator values (thorough, 16 shards) or a stratified 2^22+917 504-value subset (quick: high or low half in {0,1,2,0x7fff,0x8000,0xfffe,0xffff} x all 65 536, plus PRNG values). sum phase: FoldChecksum(ComputeChecksum(d,init)) vs RFC 1071 reference for all lengths 0..64 x 5 byte patterns x 6 initial sums, PRNG strings <= 4 KiB, 65 535..65 537, and 128 KiB..300 KB strings of 0xff/large words (32-bit carry-out region). proto phase: for IPv4 header (IHL 5..15), TCP/v4, TCP/v6, UDP/v4, UDP/v6, ICMPv4, ICMPv6, GRE (+key/seq, + source route entries of odd and even length - an odd one makes the header odd-sized, so the payload starts inside a checksum word) packets built with SerializeLayers(FixLengths,ComputeChecksums): stored checksum == independent reference over the covered bytes + independently built pseudo-header; a 16-bit compensation word (payload word / IPv4 Id) steers each family through the checksum outcomes (all 65 536 words for one family per protocol and parity in quick, six families in thorough; the special outcomes 0x0000/0xffff/0x0001/0xfffe/0x8000/0x7fff/0x00ff/0xff00 are additionally solved for), odd and even payload lengths; every built packet is decoded and verified (layer VerifyChecksum + Packet.VerifyChecksums); every single-bit flip of every covered bit (incl. stored checksum and pseudo-header addresses) that leaves the covered byte range unchanged must be reported invalid with Correct == reference. jumbo phase: UDP, TCP and ICMPv6 jumbograms over IPv6 of 131 056..131 072 bytes of 0xff, each walked with a compensation word (32 values in quick, 128 in thorough) across the point where the one's complement sum passes 2^32: written checksum == reference (32-bit pseudo-header length), verification accepts, and 24 single-bit flips per packet (the last word's 16 bits, 8 PRNG payload bits) are reported invalid with Correct == reference (the subtraction of the stored checksum from a folded sum must not wrap). Non-trivial = every packet (>= 1 covered word) and every >= 2-byte string; distinct by content hash.",
 			Assumptions: []string{"the harness's RFC 1071 reference (64-bit accumulation, end-around fold) and pseudo-header builders are correct", "bit flips that change which bytes a layer covers (length/IHL/data-offset fields) are skipped, because an accidental 2^-16 match is then legitimate"},
 			Phases: []vlib.Phase{
 				{Name: "fold", Bin: "vchild", Quick: 16, Thorough: 16},
 				{Name: "sum", Bin: "vchild", Quick: 8, Thorough: 16},
 				{Name: "proto", Bin: "vchild", Quick: 16, Thorough: 16},
+				{Name: "jumbo", Bin: "vchild", Quick: 16, Thorough: 16},
 			},
-			Require:    []string{"fold_values", "sum_strings", "sum_long_inputs", "steered_packets", "bitflips_checked", "outcome_0xffff_seen", "outcome_0x0000_seen", "gre_without_checksum_checked"},
+			Require:    []string{"fold_values", "sum_strings", "sum_long_inputs", "steered_packets", "bitflips_checked", "outcome_0xffff_seen", "outcome_0x0000_seen", "gre_without_checksum_checked", "jumbograms_verified"},
 			Exhaustive: func(t string) bool { return false },
 		},
 		LevelText: "Runtime monitor with an independent RFC 1071 reference: the real helpers and serializers run on generated inputs and every result is compared with the reference; FoldChecksum is compared on all 2^32 inputs in the thorough tier. Exploration elsewhere (packets and strings are sampled; checksum outcomes are enumerated by steering).",
